@@ -17,7 +17,8 @@ META = dict(
          "as the Skedder does, writes before or after the logger in a tick.  After every operation, and again after an appended STOP, "
          "the log file content on the in-memory file system must equal header + the records the statement promises; queue rules must "
          "leave the queue empty.  For streak and deck additionally the complete grid of queue contents of up to 3 (quick) / 4 (thorough) "
-         "elements over {proper entry, None, 0, '', {}, []}, split in every way around an earlier run.",
+         "elements over {proper entry, None, 0, '', {}, []}, split in every way around an earlier run; streak also with a dict and an odict "
+         "as the logged container (elements = its items, insertion order).",
     note="One log; one loggee share of two fields (change/update also with one or two further single-field loggees, thorough depth 9/8 there); logger period is represented by which ticks carry a RUN (the Skedder only "
          "decides when to send RUN); values cycle mod 3; writes use Share.update (the stamping write); bounded depth, not a proof.",
 )
@@ -67,8 +68,18 @@ def alphabet(rule, sel="all"):
     return ["R", "T", "ws", "wd", "wb"] + extra + ["X"]
 
 
+MAPPING_SEL = ("dict", "odict")     # streak: the logged field is a mapping, elements are its (key, value) items
+
+
+def elems(obj):
+    """Elements of a queue container in its own order (items for a mapping)."""
+    return list(obj.items()) if isinstance(obj, dict) else list(obj)
+
+
 def kind_of(e):
     """Element kind for canonical states: proper entry or which junk."""
+    if isinstance(e, tuple) and len(e) == 2 and isinstance(e[0], str):    # mapping item
+        return kind_of(e[1])
     if isinstance(e, dict) and e:
         return "m"
     if isinstance(e, int) and not isinstance(e, bool) and e > 0:
@@ -107,7 +118,7 @@ def selected_fields(rule, sel):
 
 def given_fields(rule, sel):
     """fields= argument handed to addLoggee."""
-    if sel in EMPTY_SEL:
+    if sel in EMPTY_SEL or sel in MAPPING_SEL:
         return None
     if sel in ABSENT_SEL:
         return list(ABSENT_SEL[sel])
@@ -249,12 +260,13 @@ class Ref:
         elif op in ("q", "qa"):
             self.npush += 1
             n = self.npush
-            self.queue.append(dict(a=n, b=10 * n) if self.rule == "deck" else n)
+            self.queue.append(dict(a=n, b=10 * n) if self.rule == "deck" else ("k%d" % n, n) if self.sel in MAPPING_SEL else n)
         elif op == "j":
             self.apply("j:" + JUNK[self.njunk % len(JUNK)])
         elif op.startswith("j:"):
             self.njunk += 1
-            self.queue.append(junk_value(op[2:]))
+            v = junk_value(op[2:])
+            self.queue.append(("j%d" % self.njunk, v) if self.sel in MAPPING_SEL else v)
         elif op == "X":
             self.apply("STOP")
             self.apply("T")
@@ -299,7 +311,9 @@ class Impl:
         self.rule = rule
         self.fs = vfs.VFS()
         self.undo = vfs.install(self.fs)
-        init = None if sel in EMPTY_SEL else [("a", [] if rule == "streak" else 0), ("b", 0)]
+        self.sel = sel
+        queue0 = {} if sel == "dict" else odict() if sel == "odict" else []
+        init = None if sel in EMPTY_SEL else [("a", queue0 if rule == "streak" else 0), ("b", 0)]
         self.w = vfs.LogWorld(self.fs, getattr(g, rule.upper()),
                               fields=given_fields(rule, "all" if sel in MULTI else sel),
                               share_init=init, tick=TICK, base=BASE, tag=TAG,
@@ -334,12 +348,18 @@ class Impl:
             n = self.npush
             if self.rule == "deck":
                 return sh.push(self.odict([("a", n), ("b", 10 * n)]))
+            if self.sel in MAPPING_SEL:
+                sh["a"]["k%d" % n] = n
+                return None
             return sh["a"].append(n)
         if op == "qa":
             self.npush += 1
             n = self.npush
             if self.rule == "deck":
                 return self.alias.push(self.odict([("a", n), ("b", 10 * n)]))
+            if self.sel in MAPPING_SEL:
+                self.alias["k%d" % n] = n
+                return None
             return self.alias.append(n)
         if op in ("yd", "zd"):
             o = w.shares["mc." + op[0]]
@@ -359,6 +379,9 @@ class Impl:
             v = junk_value(op[2:])
             if self.rule == "deck":
                 return sh.push(v)
+            if self.sel in MAPPING_SEL:
+                sh["a"]["j%d" % self.njunk] = v
+                return None
             return sh["a"].append(v)
         if op == "X":
             w.stop()
@@ -376,9 +399,9 @@ class Impl:
         if self.alias is None:
             return []
         cur = self.current()
-        out = list(self.alias)
+        out = elems(self.alias)
         if cur is not self.alias:
-            out += list(cur) if isinstance(cur, (list, type(self.alias))) else [cur]
+            out += elems(cur) if isinstance(cur, (list, dict, type(self.alias))) else [cur]
         return out
 
     def queue_len(self):
@@ -399,8 +422,8 @@ class Impl:
         sh = w.share
         a = sh["a"] if "a" in sh else "absent"
         return (w.logger.status, w.logger.desire, age(w.log.stamp), age(sh.stamp), age(w.logger.stamp),
-                tuple(kind_of(e) for e in a) if isinstance(a, list) else a, sh["b"] if "b" in sh else "absent", sh["c"] if "c" in sh else "absent",
-                None if self.alias is None else (self.current() is self.alias, tuple(kind_of(e) for e in self.alias)),
+                tuple(kind_of(e) for e in elems(a)) if isinstance(a, (list, dict)) else a, sh["b"] if "b" in sh else "absent", sh["c"] if "c" in sh else "absent",
+                None if self.alias is None else (self.current() is self.alias, tuple(kind_of(e) for e in elems(self.alias))),
                 tuple(kind_of(e) for e in sh.deck), lasts,
                 tuple((n, o["a"], age(o.stamp)) for n, o in sorted(w.shares.items()) if o is not sh),
                 w.log.first, w.log.file is not None and not w.log.file.closed)
@@ -458,6 +481,7 @@ def diverge(node, hist, part, stage):
                       "share.update(c=None), kv = share.update(c=1 or (c+1)%3) ; fields=two-x0 / two-y0: share mc.x / mc.y is initialised "
                       "with Share.change() so its stamp is None, cx / cy = share.change(a=(a+1)%3) on it ; q = deck push(odict(a=n,b=10n)) / list append(n) ; "
                       "qa = the same through the reference to share.deck / share['a'] taken once right after construction ; "
+                      "fields=dict/odict (streak): field a is a dict / odict, q = share['a']['k<n>'] = n, j:<v> = share['a']['j<m>'] = v ; "
                       "j:<v> = deck push(v) / list append(v) for v in None, 0, '', {}, [] ; j = the next of these in that order ; "
                       "X = STOP, T, START")
     if node.error:
@@ -625,6 +649,8 @@ def run():
     # rule change with a selected field the share lacks at START (first / middle / last position)
     items += [("change", s, depth if core.TIER == "quick" else 9) for s in sorted(ABSENT_SEL)]
     items += [("grid", r, s, maxlen) for r in QUEUE for s in ("all", "one")]
+    # streak whose logged field is a mapping (dict, odict): elements are its items, in insertion order
+    items += [("streak", s, depth) for s in MAPPING_SEL] + [("grid", "streak", s, maxlen) for s in MAPPING_SEL]
     parts = core.pmap(work_any, items)
     # keep, per group, the shortest (then lexicographically first) example over all shards
     allv = sorted((v for p in parts for v in p.violations),
@@ -648,6 +674,8 @@ def run():
         "not, is one record formatted with %s",
         "fields=two/three: the log has loggees x (fields a, b), y (and z), columns x.a x.b y (z); 'change' compares every logged column "
         "with its last logged value, 'update' counts a stamped write to any loggee",
+        "streak with a mapping as logged field (fields=dict / odict): the queued elements are its (key, value) items, FIFO = insertion order, "
+        "each logged once as '%s' of the item, the same mapping object left empty",
         "queue rules: 'the queue' is the container object the producer put into the share (streak: the list in field a, deck: share.deck); "
         "a producer may keep its reference to it, so after every run that same object must be empty and later appends through it must be logged",
         "fields=two-x0 / two-y0: loggee x / y is initialised and written with Share.change(), which leaves share.stamp None; such a write "
